@@ -513,6 +513,13 @@ std::vector<double> GridLocalPolynomial::getCandidateConstructionPoints(double t
                                                                         std::vector<int> const &level_limits, double const *scale_correction){
     // combine the initial points with negative weights and the refinement candidates with surplus weights (no need to normalize, the sort uses relative values)
     MultiIndexSet refine_candidates = getRefinementCanidates<effrule>(tolerance, criteria, output, level_limits, scale_correction);
+    if (!dynamic_values->data.empty() && !refine_candidates.empty()){
+        // samples that were delivered but are not yet connected to the grid are neither in points nor in initial_points,
+        // they must not be offered (and computed) a second time
+        Data2D<int> pending(num_dimensions, 0);
+        for(auto const &d : dynamic_values->data) pending.appendStrip(d.point);
+        refine_candidates = refine_candidates - MultiIndexSet(pending);
+    }
     MultiIndexSet new_points = (dynamic_values->initial_points.empty()) ? std::move(refine_candidates) : refine_candidates - dynamic_values->initial_points;
 
     // compute the weights for the new_points points
